@@ -1550,6 +1550,9 @@ def make_keys_sources(repo: Repo, f: FuncInfo) -> tuple[list[str], bool]:
                     ok = False
         elif isinstance(e, ast.IfExp):
             elems(e.body, depth + 1); elems(e.orelse, depth + 1)
+        elif isinstance(e, (ast.ListComp, ast.SetComp, ast.GeneratorExp)) and len(e.generators) == 1 and isinstance(e.generators[0].target, ast.Name) \
+                and isinstance(e.elt, ast.Name) and e.elt.id == e.generators[0].target.id:
+            elems(e.generators[0].iter, depth + 1)       # a filtering comprehension: its elements are elements of the iterated sequence
         elif isinstance(e, ast.Name):
             ds = local_defs(f, e.id)
             if not ds or any(k != 'assign' for k, _ in ds):
